@@ -1739,6 +1739,18 @@ fn run_crash_job(job: &CrashJob, dir: &str, disk: &mut crash::Disk, st: &mut Cra
             if again.is_err() || after != new_result {
                 st.violation(format!("c07:crash:{fname}:save-after-crash-does-not-produce-the-snapshot{in_place}"), format!("{job:?}: after crash image {} a further save gives {again:?} and the path loads as {}", img.label, short(&format!("{after:?}"))), json!({"part": "crash", "job": job, "image": img.label, "then": "save again"}));
             }
+            // ... and so must a later save of the *other* (previous) content: whatever the crash
+            // left behind (e.g. a longer temporary file) must not leak into it
+            if let Some((old_name, old_fn)) = &job.old {
+                disk.set(&img.fs, true);
+                st.resaves += 1;
+                let so = build(&crash_content(old_name));
+                let again = old_fn.save(&so, &path);
+                let after = load_result(*new_fn, &path);
+                if again.is_err() || after != old_result {
+                    st.violation(format!("c07:crash:{}:save-after-crash-does-not-produce-the-snapshot{in_place}", old_fn.name()), format!("{job:?}: after crash image {} saving the previous content again gives {again:?} and the path loads as {}", img.label, short(&format!("{after:?}"))), json!({"part": "crash", "job": job, "image": img.label, "then": "save the previous content"}));
+                }
+            }
         }
     }
     let _ = replay;
